@@ -9,13 +9,13 @@ import itertools
 PROPERTY = "C11"
 LEVEL = "exploration"
 SHARDS = {"quick": 4, "thorough": 16}
-REQUIRED = ["ws-automaton", "call-model", "frame-accounting", "state-monotone", "denial-response", "overlapped-pairs", "websocket_session", "cancelled-receive", "iterator-early-exit", "server-send-fails", "large-frames"]
+REQUIRED = ["ws-automaton", "call-model", "frame-accounting", "state-monotone", "denial-response", "overlapped-pairs", "websocket_session", "cancelled-receive", "concurrent-receivers", "iterator-early-exit", "server-send-fails", "large-frames"]
 RULE = ("Exhaustive call sequences over 15 wrapper operations (accept, accept(subprotocol), receive, receive_text, receive_bytes, one step of "
         "iter_text / iter_bytes, send_text, send_bytes, close, close(code), raw send of accept / send / close / foreign type) of length <=4 "
         "(thorough <=5) x every server script (connect; 0-3 frames text/bytes/both-keys; disconnect at every position or never), plus "
         "length 5 (thorough 6) over a sample of scripts; plus every sequence of length <=3 (thorough 4) with each adjacent pair overlapped (call i suspended inside "
         "the server's send() while call i+1 runs to completion - two tasks sharing the socket). Non-trivial = sequence containing an accept or close and >=2 calls; distinct by construction.")
-RULE += " Also: empty text / binary frames, the websocket_session shortcut, a pending receive cancelled on a real event loop, the server's send() failing for the n-th forwarded event, `async for` over iter_text / iter_bytes left early and reading continued by another call (event loop; at most one server receive outstanding)."
+RULE += " Also: empty text / binary frames, the websocket_session shortcut, a pending receive cancelled on a real event loop, the server's send() failing for the n-th forwarded event, `async for` over iter_text / iter_bytes left early and reading continued by another call (event loop; at most one server receive outstanding); 2-5 tasks waiting in a receive variant of one socket at once (each frame returned to exactly one of them, per-task arrival order)."
 ASSUMPTIONS = [
     "a typed receive that meets a frame of the other type (or the connect event) has an unspecified outcome (KeyError/None tolerated); the event counts as consumed",
     "a call that would wait for a server event that never comes ends the scenario (the coroutine is suspended, nothing is judged after it)",
@@ -536,6 +536,90 @@ def cancelled_receive(ctx, variant, how, nframes, disconnect):
         ctx.violation("cancelled-receive|orphan-task-left-pending", case, str(out["pending"]))
 
 
+def concurrent_receivers(ctx, variant, ntasks, nframes, gaps):
+    """several tasks share one socket and wait in a receive variant at the same time (a reader task next to a task that
+    waits for one control frame): every frame the server hands over is returned to exactly one of them, each task sees
+    its frames in arrival order, and the disconnect ends every reader"""
+    import asyncio
+
+    from baize import asgi
+    from vf import drivers
+    lp = drivers.VLoop(max_iterations=200_000)
+    out = {"got": [], "ends": []}
+
+    async def main():
+        q = asyncio.Queue()
+
+        async def receive():
+            return await q.get()
+
+        async def send(m):
+            pass
+        ws = asgi.WebSocket({"type": "websocket", "headers": [], "path": "/", "query_string": b""}, receive, send)
+        await q.put({"type": "websocket.connect"})
+        await ws.accept()
+        key = "bytes" if variant == "receive_bytes" else "text"
+
+        async def reader(t):
+            call = {"receive": ws.receive, "receive_text": ws.receive_text, "receive_bytes": ws.receive_bytes}[variant]
+            while True:
+                try:
+                    r = await call()
+                except asgi.WebSocketDisconnect:
+                    out["ends"].append((t, "disconnect"))
+                    return
+                except RuntimeError:
+                    out["ends"].append((t, "refused-after-disconnect"))  # another reader had already been told
+                    return
+                if isinstance(r, dict):
+                    if r.get("type") == "websocket.disconnect":
+                        out["ends"].append((t, "disconnect"))
+                        return
+                    r = r.get(key)
+                out["got"].append((t, r))
+        tasks = [asyncio.ensure_future(reader(t)) for t in range(ntasks)]
+        for i in range(nframes):
+            for _ in range(gaps[i % len(gaps)]):
+                await asyncio.sleep(0)
+            q.put_nowait({"type": "websocket.receive", key: (b"f%04d" % i if key == "bytes" else "f%04d" % i)})
+        for _ in range(50):
+            await asyncio.sleep(0)
+        for _ in range(ntasks):
+            q.put_nowait({"type": "websocket.disconnect", "code": 1000})  # servers keep answering with the disconnect
+        await asyncio.wait_for(asyncio.gather(*tasks), 100)
+    case = {"scenario": "several tasks wait in a receive variant of one socket", "call": variant, "tasks": ntasks, "frames": nframes, "gaps": list(gaps)}
+    ctx.mon("concurrent-receivers")
+    try:
+        lp.run_until_complete(asyncio.wait_for(main(), 1000))
+    except asyncio.TimeoutError:
+        ctx.violation("concurrent-receivers|a-reader-never-ends", case, repr(out)[:300])
+        return
+    except Exception as e:
+        ctx.violation(f"concurrent-receivers|{type(e).__name__}", case, repr(e)[:200])
+        return
+    finally:
+        try:
+            for t in asyncio.all_tasks(lp):
+                t.cancel()
+        except Exception:
+            pass
+        lp.close()
+    want = [(b"f%04d" % i if variant == "receive_bytes" else "f%04d" % i) for i in range(nframes)]
+    got = [r for _, r in out["got"]]
+    if sorted(got, key=repr) != sorted(want, key=repr):
+        dup = sorted({repr(x) for x in got if got.count(x) > 1})
+        ctx.violation("concurrent-receivers|frame-returned-twice" if dup else "concurrent-receivers|frames-lost-or-invented", case,
+                      f"twice: {dup[:4]}; returned {len(got)} of {len(want)}")
+        return
+    for t in range(ntasks):
+        mine = [r for tt, r in out["got"] if tt == t]
+        if mine != sorted(mine):
+            ctx.violation("concurrent-receivers|a-task-sees-frames-out-of-order", case, repr(mine)[:200])
+            return
+    if got != want:
+        ctx.count("concurrent-receivers-global-order-differs(not judged: which waiter wakes first is the loop's choice)")
+
+
 def iter_early_exit(ctx, kind, nframes, k, then, body_awaits):
     """`async for` over iter_text()/iter_bytes() is left after k frames (the loop body may await something), then the
     application goes on reading with another call: every frame must still come out exactly once, in order, the
@@ -770,6 +854,12 @@ def run(ctx):
                         cancelled_receive(ctx, variant, how, nframes, disconnect)
                         ctx.case_enum(True)
         ctx.sample("cancelled-receive", {"call": "receive_text", "how": "timeout", "frames": 3, "disconnect": True})
+        for variant in ("receive", "receive_text", "receive_bytes"):
+            for ntasks in (2, 3, 5):
+                for nframes in (1, 4, 13):
+                    for gaps in ((0,), (1,), (3, 0, 0, 2), (5,)):
+                        concurrent_receivers(ctx, variant, ntasks, nframes, gaps)
+                        ctx.case_enum(True)
         for kind in ("iter_text", "iter_bytes"):
             for nframes in (1, 2, 4):
                 for k in range(0, nframes + 1):
@@ -790,6 +880,7 @@ def run(ctx):
         ctx.mon("denial-response", 0)
         ctx.mon("websocket_session", 0)
         ctx.mon("cancelled-receive", 0)
+        ctx.mon("concurrent-receivers", 0)
         ctx.mon("iterator-early-exit", 0)
         ctx.mon("large-frames", 0)
 
@@ -797,6 +888,10 @@ def run(ctx):
 def replay(ctx, case):
     if case.get("scenario", "").startswith("pending receive cancelled"):
         cancelled_receive(ctx, case["call"], case["how"], case["frames"], case["disconnect"])
+        ctx.case(1)
+        return
+    if case.get("scenario", "").startswith("several tasks wait"):
+        concurrent_receivers(ctx, case["call"], case["tasks"], case["frames"], tuple(case["gaps"]))
         ctx.case(1)
         return
     if case.get("scenario", "").startswith("iterator left early"):
